@@ -448,6 +448,8 @@ stack_harness!(stack_set_w1r1_fault, W_PLAIN, 1, OP_SET, CK_NONE, true, true);
 kfs_harness! {
     #[kani::unwind(48)]
     #[kani::stub(crate::raw_cache::prune, crate::kv_kfs::spec_prune)]
+    #[kani::stub(crate::sharded::Cache::shard_ids, ids_01)]
+    #[kani::stub(crate::sharded::Cache::random_shard_id, random_2)]
     fn stack_ops_sanity_twin() {
         stack_case(W_PLAIN, 1, OP_GET, CK_NONE, true, false, kfs::ENV_NONE);
         assert!(false, "KV-SANITY: reachable end of harness");
